@@ -912,14 +912,12 @@ def firstDataSkipRunning (s : S) : List Nat → Option Val
   | o :: os =>
     if s.val o ≠ .nd ∧ s.running (s.owner o) = false then some (s.val o) else firstDataSkipRunning s os
 
-/-- the state of a node holding data at an upstream is `running` (its job is out), and the downstream
-input loses its most recent upstream: such a fetch contradicts `C03_most_recent` -/
-theorem C03_skip_running_upstream_witness :
-    let s : S := (Data.step exP 8 rtS (.flag 2 true false)).1
-    s.conns 0 = [11, 10] ∧ s.val 11 = .d 2 ∧ s.owner 11 = 2 ∧ s.running 2 = true ∧
-    firstData s (s.conns 0) = some (.d 2) ∧ firstDataSkipRunning s (s.conns 0) = some (.d 1) ∧
-    (runAny exP 8 8 s 0 []).1.calls = [(0, [.d 2, .d 100, .d 5])] := by
-  decide
+theorem all_congr_mem {α} (l : List α) (f g : α → Bool) (h : ∀ x ∈ l, f x = g x) : l.all f = l.all g := by
+  induction l with
+  | nil => rfl
+  | cons a l ih =>
+    simp only [List.all_cons]
+    rw [h a (by simp), ih (fun x hx => h x (List.mem_cons_of_mem _ hx))]
 
 /-- readiness reads the CURRENT values: two states that agree on the node's flags, its input panel and what
 its inputs hold and how they are hinted give the same verdict — there is no memory of earlier validations -/
@@ -930,7 +928,7 @@ theorem C03_ready_current_value (P : Params) (s t : S) (n : Nat) (h1 : t.running
   unfold nodeReady
   rw [h1, h2, h3]
   congr 1
-  apply List.all_congr rfl
+  apply all_congr_mem
   intro i hi
   obtain ⟨a, b, c⟩ := h4 i hi
   unfold chanReady
@@ -968,7 +966,7 @@ theorem C03_mutation_shuts_gate (P : Params) (fuel d : Nat) (s : S) (n i k k' : 
   have hadm : admission P fuel (mutateS s k k') n [] = (mutateS s k k', .refused .readiness) := by
     unfold admission
     simp only [setInputs]
-    rw [fetchAll_noconn P fuel (mutateS s k k') _ (fun j hj => hc j hj)]
+    rw [fetchAll_noconn P fuel (mutateS s k k') ((mutateS s k k').ins n) (fun j hj => hc j hj)]
     simp [hnr]
   unfold runAny
   rw [hadm]
@@ -977,17 +975,6 @@ theorem C03_mutation_shuts_gate (P : Params) (fuel d : Nat) (s : S) (n i k k' : 
 object in `c` passed `c`'s hint when it was assigned -/
 def chanReadyMemo (memo : Nat → Bool) (P : Params) (s : S) (c : Nat) : Bool :=
   s.val c ≠ .nd && (!(s.hinted c && s.strict c) || memo c || P.admits c (s.val c))
-
-/-- value 7 is delivered to the int-like input 0 (valid, remembered), the object is then changed in
-place to 500 (rejected): the real gate shuts — `C03_mutation_shuts_gate` applies —, the remembering one
-stays open -/
-theorem C03_memoised_ready_witness :
-    let s0 : S := Data.run exP 8 exInit [.set 0 (.d 7), .set 1 (.d 100), .set 2 (.d 5)]
-    let s := mutateS s0 7 500
-    chanReady exP s0 0 = true ∧ s.val 0 = .d 500 ∧ exP.admits 0 (.d 500) = false ∧ chanReady exP s 0 = false ∧
-    chanReadyMemo (fun c => c = 0) exP s 0 = true ∧ (runAny exP 8 8 s 0 []).2 = .err .readiness ∧
-    (runAny exP 8 8 s 0 []).1.calls = [] ∧ (runAny exP 8 8 s0 0 []).2 = .invoked none := by
-  decide
 
 /-! ## concrete worlds (non-vacuity and the witness for the excluded operation) -/
 
@@ -1211,6 +1198,31 @@ example : let s1 := (submitRun exP 8 mcS 0 [(2, .v (.d 5))]).1
 example : (setInputs exP 8 mcS [(42, .v (.d 5)), (40, .v (.d 500)), (41, .v (.d 101))]).2 = some .type ∧
     (setInputs exP 8 mcS [(42, .v (.d 5)), (40, .v (.d 500)), (41, .v (.d 101))]).1.val 2 = .d 5 ∧
     (setInputs exP 8 mcS [(42, .v (.d 5)), (40, .v (.d 500)), (41, .v (.d 101))]).1.val 41 = .d 100 := by decide
+
+/-! ### witnesses for the two seeded variants -/
+
+/-- `rtS` with the node that owns upstream 11 in the middle of a run -/
+def upS : S := (Data.step exP 8 rtS (.flag 2 true false)).1
+
+/-- the state of a node holding data at an upstream is `running` (its job is out), and the downstream
+input loses its most recent upstream: such a fetch contradicts `C03_most_recent` -/
+theorem C03_skip_running_upstream_witness :
+    upS.conns 0 = [11, 10] ∧ upS.val 11 = .d 2 ∧ upS.owner 11 = 2 ∧ upS.running 2 = true ∧
+    firstData upS (upS.conns 0) = some (.d 2) ∧ firstDataSkipRunning upS (upS.conns 0) = some (.d 1) ∧
+    (runAny exP 8 8 upS 0 []).1.calls = [(0, [.d 2, .d 100, .d 5])] := by
+  decide
+
+def muS0 : S := Data.run exP 8 exInit [.set 0 (.d 7), .set 1 (.d 100), .set 2 (.d 5)]
+def muS : S := mutateS muS0 7 500
+
+/-- value 7 is delivered to the int-like input 0 (valid, remembered), the object is then changed in
+place to 500 (rejected): the real gate shuts — `C03_mutation_shuts_gate` applies —, the remembering one
+stays open -/
+theorem C03_memoised_ready_witness :
+    chanReady exP muS0 0 = true ∧ muS.val 0 = .d 500 ∧ exP.admits 0 (.d 500) = false ∧ chanReady exP muS 0 = false ∧
+    chanReadyMemo (fun c => c = 0) exP muS 0 = true ∧ (runAny exP 8 8 muS 0 []).2 = .err .readiness ∧
+    (runAny exP 8 8 muS 0 []).1.calls = [] ∧ (runAny exP 8 8 muS0 0 []).2 = .invoked none := by
+  decide
 
 end PwVerif.C03
 
